@@ -154,6 +154,54 @@ fn check_op(op: &DiffOp, old: &[u32], new: &[u32], out: &mut Local) {
                 fails.push(format!("skip({}) = {:?}, expected {:?}", pre, got, want));
             }
         }
+        // consumers that are built on fold (an iterator may override it): after `pre` plain next() calls
+        for pre in 0..=n.min(3) {
+            let want: Vec<Row> = expect_all.iter().skip(pre).copied().collect();
+            let advance = |it: &mut dyn Iterator<Item = similar::Change<u32>>| {
+                for _ in 0..pre {
+                    it.next();
+                }
+            };
+            let mut it = op.iter_changes(old, new);
+            advance(&mut it);
+            let got: Vec<Row> = it.fold(Vec::new(), |mut v, c| {
+                v.push(row(c));
+                v
+            });
+            if got != want {
+                fails.push(format!("after {} next(), fold() visits {:?}, expected {:?}", pre, got, want));
+            }
+            let mut it = op.iter_changes(old, new);
+            advance(&mut it);
+            let mut got: Vec<Row> = Vec::new();
+            it.for_each(|c| got.push(row(c)));
+            if got != want {
+                fails.push(format!("after {} next(), for_each() visits {:?}, expected {:?}", pre, got, want));
+            }
+            let mut it = op.iter_changes(old, new);
+            advance(&mut it);
+            if it.last().map(row) != want.last().copied() {
+                fails.push(format!("after {} next(), last() differs", pre));
+            }
+            let mut it = op.iter_changes(old, new);
+            advance(&mut it);
+            if it.count() != want.len() {
+                fails.push(format!("after {} next(), count() differs", pre));
+            }
+            let mut it = op.iter_changes(old, new);
+            advance(&mut it);
+            let got = it.map(|c| c.old_index().unwrap_or(0) * 1000 + c.new_index().unwrap_or(0)).max();
+            let want_max = want.iter().map(|r| r.1.unwrap_or(0) * 1000 + r.2.unwrap_or(0)).max();
+            if got != want_max {
+                fails.push(format!("after {} next(), map(indices).max() = {:?}, expected {:?}", pre, got, want_max));
+            }
+            let mut it = op.iter_changes(old, new);
+            advance(&mut it);
+            let got: Vec<Row> = it.by_ref().take(2).map(row).collect::<Vec<_>>().into_iter().chain(it.map(row)).collect();
+            if got != want {
+                fails.push(format!("after {} next(), by_ref().take(2) + rest = {:?}, expected {:?}", pre, got, want));
+            }
+        }
         if op.iter_changes(old, new).count() != n {
             fails.push(format!("count() = {}, expected {}", op.iter_changes(old, new).count(), n));
         }
@@ -341,6 +389,20 @@ pub fn families() -> Vec<Box<dyn Family>> {
                                 fails.push(("expand.iterator_adaptors", format!("iter_all_changes: after {} next(), nth({}) = {:?}, expected {:?}; ops {:?}", pre, k, got, want, d.ops())));
                             }
                         }
+                        {
+                            let mut it = d.iter_all_changes();
+                            for _ in 0..pre {
+                                it.next();
+                            }
+                            let got: Vec<R> = it.fold(Vec::new(), |mut v, c| {
+                                v.push(rrow(c));
+                                v
+                            });
+                            let want: Vec<R> = reference.iter().skip(pre).copied().collect();
+                            if got != want {
+                                fails.push(("expand.iterator_adaptors", format!("iter_all_changes: after {} next(), fold() visits {:?}, expected {:?}; ops {:?}", pre, got, want, d.ops())));
+                            }
+                        }
                         let got: Vec<R> = d.iter_all_changes().skip(pre).step_by(3).map(rrow).collect();
                         let want: Vec<R> = reference.iter().skip(pre).step_by(3).copied().collect();
                         if got != want {
@@ -411,6 +473,112 @@ pub fn families() -> Vec<Box<dyn Family>> {
                         }
                         for (code, msg) in fails {
                             out.violation(code, format!("{} | alg={} old={} new={}", msg, alg_name(alg), fmt_seq(&a), fmt_seq(&b)));
+                        }
+                    }
+                }
+            },
+        ),
+        family(
+            "handbuilt_hunks",
+            "UnifiedDiffHunk::new over ARBITRARY caller-built op lists (all four kinds with arbitrary in-bounds offsets and lengths, including Replace ops with ONE empty side, in any order) on a text diff of small token slices: hunk.iter_changes() - consumed by next(), by fold / for_each / last after a prefix of next() calls - must equal the concatenation of the reference expansion of every op",
+            false,
+            32,
+            |cfg| cfg.n(40_000, 800_000),
+            |idx, cfg, out| {
+                let mut rng = Rng::for_case(cfg.seed, "c13.handbuilt_hunks", idx);
+                let lo = 1 + rng.below(if cfg.tiny { 4 } else { 9 });
+                let ln = 1 + rng.below(if cfg.tiny { 4 } else { 9 });
+                let sa: Vec<String> = (0..lo).map(|i| format!("old{}\n", i)).collect();
+                let sb: Vec<String> = (0..ln).map(|i| format!("new{}\n", i)).collect();
+                let ra: Vec<&str> = sa.iter().map(|s| s.as_str()).collect();
+                let rb: Vec<&str> = sb.iter().map(|s| s.as_str()).collect();
+                let nops = 1 + rng.below(4);
+                let mut ops: Vec<DiffOp> = Vec::new();
+                for _ in 0..nops {
+                    let o = rng.below(lo + 1);
+                    let n = rng.below(ln + 1);
+                    let ol = rng.below(lo - o + 1);
+                    let nl = rng.below(ln - n + 1);
+                    let op = make_op(rng.below(4), o, ol, n, nl);
+                    if op.old_range().is_empty() && op.new_range().is_empty() {
+                        continue;
+                    }
+                    ops.push(op);
+                }
+                if ops.is_empty() {
+                    return;
+                }
+                let one_sided = ops.iter().any(|op| matches!(op, DiffOp::Replace { old_len, new_len, .. } if *old_len == 0 || *new_len == 0));
+                out.sample(|| format!("hunk ops {:?} over {} / {} tokens", ops, lo, ln));
+                out.nontrivial(&(&ops, lo, ln));
+                if one_sided {
+                    out.count("hunks_with_one_sided_replace");
+                }
+                out.eval();
+                type R<'x> = (ChangeTag, Option<usize>, Option<usize>, &'x str);
+                let r = guard(|| {
+                    let d = TextDiff::from_slices(&ra, &rb);
+                    let mut reference: Vec<R> = Vec::new();
+                    for op in &ops {
+                        let (_, orr, nrr) = op.as_tag_tuple();
+                        match op {
+                            DiffOp::Equal { old_index, new_index, len } => {
+                                for k in 0..*len {
+                                    reference.push((ChangeTag::Equal, Some(old_index + k), Some(new_index + k), ra[old_index + k]));
+                                }
+                            }
+                            _ => {
+                                if !matches!(op, DiffOp::Insert { .. }) {
+                                    for i in orr.clone() {
+                                        reference.push((ChangeTag::Delete, Some(i), None, ra[i]));
+                                    }
+                                }
+                                if !matches!(op, DiffOp::Delete { .. }) {
+                                    for j in nrr.clone() {
+                                        reference.push((ChangeTag::Insert, None, Some(j), rb[j]));
+                                    }
+                                }
+                            }
+                        }
+                    }
+                    fn rrow<'x>(c: similar::Change<&'x str>) -> (ChangeTag, Option<usize>, Option<usize>, &'x str) {
+                        (c.tag(), c.old_index(), c.new_index(), c.value())
+                    }
+                    let mut fails: Vec<String> = Vec::new();
+                    let h = similar::udiff::UnifiedDiffHunk::new(ops.clone(), &d, true);
+                    let got: Vec<R> = h.iter_changes().map(rrow).collect();
+                    if got != reference {
+                        fails.push(format!("iter_changes() gives {:?} but the ops expand to {:?}", got, reference));
+                    }
+                    for pre in 0..=reference.len().min(3) {
+                        let want: Vec<R> = reference.iter().skip(pre).copied().collect();
+                        let mut it = h.iter_changes();
+                        for _ in 0..pre {
+                            it.next();
+                        }
+                        let got: Vec<R> = it.fold(Vec::new(), |mut v, c| {
+                            v.push(rrow(c));
+                            v
+                        });
+                        if got != want {
+                            fails.push(format!("after {} next(), fold() visits {:?}, expected {:?}", pre, got, want));
+                        }
+                        let mut it = h.iter_changes();
+                        for _ in 0..pre {
+                            it.next();
+                        }
+                        if it.last().map(rrow) != want.last().copied() {
+                            fails.push(format!("after {} next(), last() differs", pre));
+                        }
+                    }
+                    fails
+                });
+                match r {
+                    Err(p) => out.violation("panic", format!("hunk iteration panicked: {} | ops={:?} over {} / {} tokens", p, ops, lo, ln)),
+                    Ok(fails) => {
+                        out.count("handbuilt_hunks_observed");
+                        if let Some(f) = fails.first() {
+                            out.violation("expand.hunk_iter_changes", format!("UnifiedDiffHunk::new over caller-built ops {:?} ({} / {} tokens): {}", ops, lo, ln, f));
                         }
                     }
                 }
